@@ -34,7 +34,15 @@ def b64(b):
 def strat_history(draw, tier):
     big = tier == "thorough"
     size = draw(st.one_of(st.integers(0, 12), st.integers(0, 300)))
+    if draw(st.integers(0, 9)) == 0:
+        # an allocation of several kilobytes (transfers of 4 KiB and more)
+        size = draw(st.sampled_from([4096, 4097, 4099, 5000, 8191, 9001]))
     span = size + 5
+    # writes repeat a few payloads at a few places (views overlap, so the
+    # same bytes are written to the same place more than once)
+    pool = [b64(bytes((draw(st.integers(0, 255)) + i) & 0xff
+                      for i in range(draw(st.integers(1, 8)))))
+            for _ in range(3)]
     steps = []
     for _ in range(draw(st.integers(1, 80 if big else 30))):
         kind = draw(st.sampled_from(
@@ -49,11 +57,18 @@ def strat_history(draw, tier):
                                                 None]))
         elif kind == "read":
             s["n"] = draw(st.one_of(st.none(), st.integers(-3, span),
-                                    st.integers(0, 12)))
+                                    st.integers(0, 12),
+                                    st.sampled_from([-1, -2, -100, span])))
         elif kind == "write":
             n = draw(st.one_of(st.integers(0, 12), st.integers(0, span)))
-            s["data"] = b64(bytes((draw(st.integers(0, 255)) + i) & 0xff
-                                  for i in range(n)))
+            if draw(st.integers(0, 2)) == 0:
+                s["data"] = draw(st.sampled_from(pool))
+                # ... preceded by a seek to one of two places
+                steps.append({"op": "seek", "view": s["view"], "whence": 0,
+                              "n": draw(st.sampled_from([0, 2]))})
+            else:
+                s["data"] = b64(bytes((draw(st.integers(0, 255)) + i) & 0xff
+                                      for i in range(n)))
         elif kind == "slice":
             idx = st.one_of(st.none(), st.integers(-span, span))
             s["start"] = draw(idx)
